@@ -520,7 +520,7 @@ def apply_wrappers(
   Returns:
     A context manager that detours the original classes to the wrapper classes.
   """
-  if not wrapper_classes:
+  if wrapper_classes is None:
     wrapper_classes = []
     for _, c in utils.JSONConvertible.registered_types():
       if (issubclass(c, ClassWrapper)
